@@ -1337,8 +1337,12 @@ func (pc *PeerConnection) SetRemoteDescription(desc SessionDescription) error {
 					transceiver.setDirection(RTPTransceiverDirectionRecvonly)
 				}
 			case direction == RTPTransceiverDirectionSendonly:
-				if transceiver.Direction() == RTPTransceiverDirectionInactive {
+				// The remote only sends: RFC 3264 S6.1 allows recvonly or inactive in the answer.
+				if transceiver.Direction() == RTPTransceiverDirectionInactive ||
+					transceiver.Direction() == RTPTransceiverDirectionSendrecv {
 					transceiver.setDirection(RTPTransceiverDirectionRecvonly)
+				} else if transceiver.Direction() == RTPTransceiverDirectionSendonly {
+					transceiver.setDirection(RTPTransceiverDirectionInactive)
 				}
 			}
 
